@@ -7,6 +7,11 @@ HOOK_COMMITS = subprocess.run(
     capture_output=True, text=True).stdout.strip().splitlines()
 
 CHECKS = {
+ "C17": dict(
+   text="Seeded deterministic simulation in both modes: the real policy-mode RetryPlugin (state in MemoryCache, TTL cooldown+31 s, clock gaps at the state lifetime -1 ns / exactly / +1 ns, id reuse, 3 interleaved sequences) and the real streams engine with a Filter -> Retry response flow whose cool-down waits run on the fake clock, several sequences concurrently in flight and interleaved at instrumented lock sites. Oracle per logical call: R1 retry verdicts <= attempts, R2 failure after exhaustion and a later call starting afresh is granted its retry, R3 out-of-condition responses never retry and (policy mode) end the sequence. Sampling, not proof.",
+   design_ref="DESIGN.md section 4 C17",
+   note="Trusted: synctest fake clock; definition of a logical call (txn id == sequence id starts one); fewer retries than configured are within 'at most' (no exactness rule); flows-mode 'ends the sequence' not checked (conditions live in the flow's Filter).",
+   technique="deterministic simulation: seeded response-status histories across interleaved sequences with state-lifetime clock targets, per-call reference counter"),
  "C12": dict(
    text="Seeded deterministic simulation of the real CachingPlugin and ResponseBasedThrottlingPlugin over the real MemoryCache (its sleeper goroutines run on the fake clock): histories of store/lookup events over a small key space with unique bodies, clock targets at expiry -1 ns / exactly / +1 ns, re-stores right at expiry, 0.3 MB bodies against a 1 MB cache, concurrent groups interleaved at instrumented lock sites. Oracle: reference map body -> (key, stored_at, ttl): R1 replay only of a body stored for that key, R2 never after stored_at+ttl, R3 Retry-After reduced by elapsed time (relative) or unchanged (absolute), R4 replayable bytes <= configured cache size at quiescent probes. Sampling, not proof.",
    design_ref="DESIGN.md section 4 C12",
